@@ -190,7 +190,6 @@ func respTypeTable(c *q.Ctx) {
 		c.Fail("anchor", fnName, "initialiser and message-type enumeration resolve", "-", "not found")
 		return
 	}
-	c.ReturnIs(gr, 0, []string{"g:requestToResponse[p0]", "(1 + p0)"}, "table entry if present, otherwise the next type")
 	// table
 	table := map[int64]int64{}
 	var tmap ssa.Value
@@ -237,11 +236,27 @@ func respTypeTable(c *q.Ctx) {
 		}
 	}
 	sort.Strings(reqs)
+	// the function is EVALUATED for every request type (a map look-up with a +1 default, a switch, an if-chain: all
+	// the same to the evaluation); only when it uses something the evaluator does not know, the shape rule decides
+	evaluated := true
+	for _, name := range reqs {
+		if _, ok := evalIntFunc(gr, names[name], table); !ok {
+			evaluated = false
+		}
+	}
+	if !evaluated {
+		c.ReturnIs(gr, 0, []string{"g:requestToResponse[p0]", "(1 + p0)"}, "table entry if present, otherwise the next type")
+	} else {
+		c.OK("K5", fnName, "the response type is computed from the request type alone (evaluated for every request type)", "-", fmt.Sprintf("%d evaluation(s)", len(reqs)))
+	}
 	for _, name := range reqs {
 		x, want := names[name], names[name+"_RES"]
 		got, ok := table[x]
 		if !ok {
 			got = x + 1
+		}
+		if evaluated {
+			got, _ = evalIntFunc(gr, x, table)
 		}
 		n++
 		c.Sites++
@@ -252,4 +267,152 @@ func respTypeTable(c *q.Ctx) {
 		seen[got] = name
 	}
 	c.Floor("K7", fnName, "request types with a _RES twin", n, 5)
+}
+
+// evalIntFunc evaluates a function of one integer parameter on the value x: constants, the parameter, +, ==, !=,
+// conversions, a comma-ok or plain look-up in the package's request->response table, branches, phis. ok=false when the
+// function uses anything else.
+func evalIntFunc(fn *ssa.Function, x int64, table map[int64]int64) (int64, bool) {
+	if len(fn.Blocks) == 0 || len(fn.Params) != 1 {
+		return 0, false
+	}
+	type val struct {
+		i    int64
+		b    bool
+		tup  [2]int64 // look-up result (value, present)
+		kind byte     // 'i', 'b', 't'
+	}
+	env := map[ssa.Value]val{}
+	var get func(v ssa.Value) (val, bool)
+	get = func(v ssa.Value) (val, bool) {
+		if r, ok := env[v]; ok {
+			return r, true
+		}
+		switch t := v.(type) {
+		case *ssa.Parameter:
+			return val{i: x, kind: 'i'}, true
+		case *ssa.Const:
+			if n, ok := q.ConstInt(t); ok {
+				return val{i: n, kind: 'i'}, true
+			}
+			if b, ok := q.ConstBool(t); ok {
+				return val{b: b, kind: 'b'}, true
+			}
+		}
+		return val{}, false
+	}
+	var prev *ssa.BasicBlock
+	b := fn.Blocks[0]
+	for steps := 0; steps < 200; steps++ {
+		for _, ins := range b.Instrs {
+			switch t := ins.(type) {
+			case *ssa.DebugRef:
+			case *ssa.Phi:
+				for i, p := range b.Preds {
+					if p == prev {
+						r, ok := get(t.Edges[i])
+						if !ok {
+							return 0, false
+						}
+						env[t] = r
+					}
+				}
+			case *ssa.Convert:
+				r, ok := get(t.X)
+				if !ok {
+					return 0, false
+				}
+				env[t] = r
+			case *ssa.ChangeType:
+				r, ok := get(t.X)
+				if !ok {
+					return 0, false
+				}
+				env[t] = r
+			case *ssa.BinOp:
+				l, ok1 := get(t.X)
+				r, ok2 := get(t.Y)
+				if !ok1 || !ok2 || l.kind != 'i' || r.kind != 'i' {
+					return 0, false
+				}
+				switch t.Op {
+				case token.ADD:
+					env[t] = val{i: l.i + r.i, kind: 'i'}
+				case token.SUB:
+					env[t] = val{i: l.i - r.i, kind: 'i'}
+				case token.EQL:
+					env[t] = val{b: l.i == r.i, kind: 'b'}
+				case token.NEQ:
+					env[t] = val{b: l.i != r.i, kind: 'b'}
+				default:
+					return 0, false
+				}
+			case *ssa.UnOp:
+				if g, ok := t.X.(*ssa.Global); ok && t.Op == token.MUL && g.Name() == "requestToResponse" {
+					env[t] = val{kind: 'm'}
+					continue
+				}
+				if t.Op == token.NOT {
+					r, ok := get(t.X)
+					if !ok || r.kind != 'b' {
+						return 0, false
+					}
+					env[t] = val{b: !r.b, kind: 'b'}
+					continue
+				}
+				return 0, false
+			case *ssa.Lookup:
+				m, ok1 := get(t.X)
+				k, ok2 := get(t.Index)
+				if !ok1 || !ok2 || m.kind != 'm' || k.kind != 'i' {
+					return 0, false
+				}
+				v, present := table[k.i]
+				if t.CommaOk {
+					p := int64(0)
+					if present {
+						p = 1
+					}
+					env[t] = val{tup: [2]int64{v, p}, kind: 't'}
+				} else {
+					env[t] = val{i: v, kind: 'i'}
+				}
+			case *ssa.Extract:
+				r, ok := get(t.Tuple)
+				if !ok || r.kind != 't' {
+					return 0, false
+				}
+				if t.Index == 0 {
+					env[t] = val{i: r.tup[0], kind: 'i'}
+				} else {
+					env[t] = val{b: r.tup[1] == 1, kind: 'b'}
+				}
+			case *ssa.If:
+				r, ok := get(t.Cond)
+				if !ok || r.kind != 'b' {
+					return 0, false
+				}
+				prev = b
+				if r.b {
+					b = b.Succs[0]
+				} else {
+					b = b.Succs[1]
+				}
+			case *ssa.Jump:
+				prev, b = b, b.Succs[0]
+			case *ssa.Return:
+				if len(t.Results) != 1 {
+					return 0, false
+				}
+				r, ok := get(t.Results[0])
+				if !ok || r.kind != 'i' {
+					return 0, false
+				}
+				return r.i, true
+			default:
+				return 0, false
+			}
+		}
+	}
+	return 0, false
 }
